@@ -331,6 +331,28 @@ def _no_progress_bars(txt: str) -> str:
     return '\n'.join(x for x in keep if x.strip())
 
 
+class scratch:
+    """Directory the observed calls run in: the worker's private scratch dir, or (self-test in the main process,
+    --replay) a temporary directory under /tmp that is removed afterwards. Never the current directory."""
+
+    def __enter__(self):
+        import tempfile
+
+        self.made = None
+        if not os.environ.get('BIOMON_WORKDIR'):
+            self.made = tempfile.mkdtemp(prefix='c20_obs_', dir='/tmp')
+            os.environ['BIOMON_WORKDIR'] = self.made
+        return os.environ['BIOMON_WORKDIR']
+
+    def __exit__(self, *a):
+        import shutil
+
+        if self.made:
+            os.environ.pop('BIOMON_WORKDIR', None)
+            shutil.rmtree(self.made, ignore_errors=True)
+        return False
+
+
 def observe(call, subdir: str, watch_codes=(), timeout=100.0):
     """Run ``call`` = dict(fn=callable, args, kwargs, post=callable|None, state=[objects whose state is part of the
     side effects]) in a forked child and return what the monitors saw (JSON)."""
@@ -339,7 +361,7 @@ def observe(call, subdir: str, watch_codes=(), timeout=100.0):
     def child(_):
         import numpy as np
 
-        base = os.environ.get('BIOMON_WORKDIR') or os.getcwd()
+        base = os.environ['BIOMON_WORKDIR']  # set by the worker or by the ``scratch`` context
         d = os.path.join(base, subdir)
         os.makedirs(d, exist_ok=True)
         os.chdir(d)
@@ -423,6 +445,14 @@ def observe(call, subdir: str, watch_codes=(), timeout=100.0):
         return out
 
     r = run_forked(child, None, timeout)
+    tries = 1
+    while 'crash_signal' in r and tries < 3:
+        # the external engine occasionally dies (SIGSEGV) on its own error paths when several of its worker threads
+        # throw at once; that is not an observation of either spelling: run the same snapshot again
+        r = run_forked(child, None, timeout)
+        tries += 1
+    if tries > 1:
+        r['retries_after_native_crash'] = tries - 1
     return r
 
 
@@ -446,7 +476,8 @@ def compare(old, new, ignore_state_paths=()):
     else:
         d = cmp.diff(old.get('result'), new.get('result'))
         if d:
-            out.append(('result-differs', '; '.join(d[:4])))
+            dp = cmp.diff(old.get('post'), new.get('post'))
+            out.append(('result-differs', '; '.join(d[:4]) + (' || after post-processing: ' + '; '.join(dp[:3]) if dp else '')))
         else:
             d = cmp.diff(old.get('post'), new.get('post'))
             if d:
